@@ -24,6 +24,11 @@ import Carquet.Impl.CFun3.BufReader
 import Carquet.Impl.CFun3.ThriftDec
 import Carquet.Impl.CFun3.RleDec
 import Carquet.Impl.Rle
+import Carquet.Impl.SimdMore     -- cfunb
+import Carquet.Gen.Dispatch      -- cfunb
+import Carquet.Impl.Bss          -- cfunb
+import Carquet.Impl.Plain        -- cfunb
+import Carquet.Impl.DeltaStrings -- cfunb
 /-
 Driver op of the translator self-check (component `cfun`, harness/ops_cfun.c):
 
@@ -276,6 +281,270 @@ def definedClaim (f : String) (g : String → Val) : Bool :=
   | "snappy_read_varint" => vN (g "end_") == (vA (g "p")).length
   | _ => false
 
+/-! ### BEGIN cfunb: value side (`modelLinkB`) and definedness claims (`definedClaimB`) of the link theorems of the second
+batch of stage-2 functions (lean/Carquet/Properties/Cnn/CFunB.lean), in executable form -/
+
+def wordsOf (w : Nat) (v : Val) : List (BitVec w) := (vA v).map (BitVec.ofNat w)
+
+/-- the `n` little-endian `k`-byte values a byte array holds (how the caller reads a `float*` / `double*` result) -/
+def valuesOfD (k n : Nat) (bytes : List UInt8) : List (BitVec (8 * k)) :=
+  (List.range n).map fun i => Spec.Kernels.leValue k ((List.range k).map fun b => bytes.getD (i * k + b) 0)
+
+def natsOf {w : Nat} (xs : List (BitVec w)) : Val := Val.a (xs.map (·.toNat))
+def natsOf8 (xs : List UInt8) : Val := Val.a (xs.map (·.toNat))
+
+/-- a `count` argument that is the (non-negative, below 2^63) length `n` -/
+def cntIs (v : Val) (n : Nat) : Bool := vN v == n && n < 2 ^ 63
+
+open Impl.Simd in
+def modelLinkB (f : String) (g : String → Val) (r : List Val) : Option Bool :=
+  match f with
+  | "scalar_prefix_sum_i32" =>
+    let vs := wordsOf 32 (g "values")
+    if cntIs (g "count") vs.length then some (r == [natsOf (scalarPrefixSum (BitVec.ofNat 32 (vN (g "initial"))) vs)]) else none
+  | "scalar_prefix_sum_i64" =>
+    let vs := wordsOf 64 (g "values")
+    if cntIs (g "count") vs.length then some (r == [natsOf (scalarPrefixSum (BitVec.ofNat 64 (vN (g "initial"))) vs)]) else none
+  | "scalar_gather_i32" | "scalar_gather_float" =>
+    let idx := wordsOf 32 (g "indices")
+    if cntIs (g "count") idx.length && (vA (g "output")).length == idx.length then
+      some (match scalarGather (memOf (wordsOf 32 (g "dict"))) idx with
+        | some m => r == [natsOf m]
+        | none => false)      -- the C function was executed (`_defined` held) although the model refuses
+    else none
+  | "scalar_gather_i64" | "scalar_gather_double" =>
+    let idx := wordsOf 32 (g "indices")
+    if cntIs (g "count") idx.length && (vA (g "output")).length == idx.length then
+      some (match scalarGather (memOf (wordsOf 64 (g "dict"))) idx with
+        | some m => r == [natsOf m]
+        | none => false)
+    else none
+  | "scalar_byte_split_encode_float" =>
+    let src := vBytes (g "values")
+    let n := vN (g "count")
+    if src.length == 4 * n && (vA (g "output")).length == 4 * n && 4 * n + 8 < 2 ^ 63 then
+      some (r == [natsOf8 (scalarBssEncodeFloat (valuesOfD 4 n src))]) else none
+  | "scalar_byte_split_encode_double" =>
+    let src := vBytes (g "values")
+    let n := vN (g "count")
+    if src.length == 8 * n && (vA (g "output")).length == 8 * n && 8 * n + 8 < 2 ^ 63 then
+      some (r == [natsOf8 (scalarBssEncodeDouble (valuesOfD 8 n src))]) else none
+  | "scalar_byte_split_decode_float" =>
+    let data := vBytes (g "data")
+    let n := vN (g "count")
+    if data.length == 4 * n && (vA (g "values")).length == 4 * n && 4 * n + 8 < 2 ^ 63 then
+      some (match r with
+        | [out] => scalarBssDecodeFloat n data == some (valuesOfD 4 n (vBytes out))
+        | _ => false) else none
+  | "scalar_byte_split_decode_double" =>
+    let data := vBytes (g "data")
+    let n := vN (g "count")
+    if data.length == 8 * n && (vA (g "values")).length == 8 * n && 8 * n + 8 < 2 ^ 63 then
+      some (match r with
+        | [out] => scalarBssDecodeDouble n data == some (valuesOfD 8 n (vBytes out))
+        | _ => false) else none
+  | "scalar_unpack_bools" =>
+    let n := (vA (g "output")).length
+    if cntIs (g "count") n && n < 2 ^ 34 then
+      some (match scalarUnpackBools (vBytes (g "input")) n with
+        | some m => r == [natsOf8 m]
+        | none => false)
+    else none
+  | "scalar_pack_bools" =>
+    let xs := vBytes (g "input")
+    if cntIs (g "count") xs.length && (vA (g "output")).length == (xs.length + 7) / 8 then
+      some (r == [natsOf8 (scalarPackBools xs)]) else none
+  | "scalar_find_run_length_i32" =>
+    let vs := wordsOf 32 (g "values")
+    if cntIs (g "count") vs.length then some (r == [Val.n (scalarFindRunLength vs)]) else none
+  | "scalar_crc32c" =>
+    let data := vBytes (g "data")
+    if vN (g "len") == data.length then
+      some (r == [Val.n (scalarCrc32c Gen.Dispatch.crc32cTable (BitVec.ofNat 32 (vN (g "crc"))) data).toNat]) else none
+  | "scalar_match_copy" =>
+    let buf := vBytes (g "src")
+    let dst := vN (g "dst")
+    let len := vN (g "len")
+    if 0 < dst && vN (g "offset") == dst && dst + len ≤ buf.length then
+      let window := buf.take dst
+      some (r == [natsOf8 (window ++ scalarMatchCopy window len ++ buf.drop (dst + len))]) else none
+  | "scalar_match_length" =>
+    let buf := vBytes (g "match_")
+    if vN (g "limit") == buf.length && vN (g "p") ≤ buf.length then
+      some (r == [Val.n (scalarMatchLength buf (vN (g "p")))]) else none
+  | "scalar_count_non_nulls" =>
+    let ls := wordsOf 16 (g "def_levels")
+    if cntIs (g "count") ls.length then
+      some (r == [Val.n (scalarCountNonNulls ls (BitVec.ofNat 16 (vN (g "max_def_level"))))]) else none
+  | "scalar_build_null_bitmap" =>
+    let ls := wordsOf 16 (g "def_levels")
+    if cntIs (g "count") ls.length && (vA (g "null_bitmap")).length == (ls.length + 7) / 8 then
+      some (r == [natsOf8 (scalarBuildNullBitmap ls (BitVec.ofNat 16 (vN (g "max_def_level"))))]) else none
+  | "scalar_fill_def_levels" =>
+    let ls := wordsOf 16 (g "def_levels")
+    if cntIs (g "count") ls.length then
+      some (r == [natsOf (scalarFillDefLevels ls (BitVec.ofNat 16 (vN (g "value"))))]) else none
+  | "carquet_byte_stream_split_encode" =>
+    let values := vBytes (g "values")
+    let out := vBytes (g "output")
+    let n := vN (g "count")
+    let k := sInt 32 (vN (g "type_length"))
+    let cap := vN (g "output_capacity")
+    if k ≤ 0 then some (r == [Val.n 1, g "output", g "bytes_written"])
+    else if k < 2 ^ 30 && n < 2 ^ 63 && n * k.toNat < 2 ^ 63 && cap < n * k.toNat then
+      some (r == [Val.n 41, g "output", g "bytes_written"])
+    else if k < 2 ^ 30 && values.length == n * k.toNat && out.length == n * k.toNat && n * k.toNat + k.toNat + n < 2 ^ 63 then
+      some (match Impl.Bss.encode values (n : Int) k cap with
+        | .ok L => r == [Val.n 0, natsOf8 L, Val.n L.length]
+        | _ => false)
+    else none
+  | "carquet_byte_stream_split_decode" =>
+    let data := vBytes (g "data")
+    let out := vBytes (g "values")
+    let n := vN (g "count")
+    let k := sInt 32 (vN (g "type_length"))
+    if k ≤ 0 then some (r == [Val.n 1, g "values"])
+    else if vN (g "data_size") != data.length then none
+    else if k < 2 ^ 30 && n < 2 ^ 63 && n * k.toNat < 2 ^ 63 && data.length < n * k.toNat then some (r == [Val.n 40, g "values"])
+    else if k < 2 ^ 30 && k.toNat * n ≤ data.length && out.length == k.toNat * n && k.toNat * n + k.toNat + n < 2 ^ 63 then
+      some (match Impl.Bss.decode data k (n : Int) with
+        | .ok L => r == [Val.n 0, natsOf8 L]
+        | _ => false)
+    else none
+  | "carquet_decode_plain_fixed_byte_array" =>
+    let input := vBytes (g "input")
+    let out := vBytes (g "output")
+    if vN (g "input_size") != input.length then none
+    else match Impl.Plain.decodeFlba input (sInt 64 (vN (g "count"))) (sInt 32 (vN (g "fixed_len"))) with
+      | .ok vals c => if c ≤ out.length then some (r == [Val.n c, natsOf8 (vals ++ out.drop c)]) else none
+      | .err => some (r == [Val.n (2 ^ 64 - 1), g "output"])
+      | .oob => none
+  | "carquet_decode_plain_boolean" =>
+    let input := vBytes (g "input")
+    let out := vBytes (g "output")
+    if vN (g "input_size") != input.length || !cntIs (g "count") out.length || out.length ≥ 2 ^ 62 then none
+    else match Impl.Plain.decodeBoolean input (out.length : Int) with
+      | .ok vals c => some (r == [Val.n c, natsOf8 vals])
+      | .err => some (r == [Val.n (2 ^ 64 - 1), g "output"])
+      | .oob => some false
+  | "dict_hash" =>
+    let data := vBytes (g "data")
+    if vN (g "size") == data.length then some (r == [Val.n (Impl.Dictionary.dictHash data).toNat]) else none
+  | "write_uleb128" =>
+    let data := vBytes (g "data")
+    let w := Impl.Delta.writeUleb128 (BitVec.ofNat 64 (vN (g "value")))
+    if w.length ≤ data.length then some (r == [Val.n w.length, natsOf8 (w ++ data.drop w.length)]) else none
+  | "common_prefix_length" =>
+    let a := vBytes (g "a")
+    let b := vBytes (g "b")
+    if vN (g "a_len") == a.length && vN (g "b_len") == b.length && a.length < 2 ^ 31 && b.length < 2 ^ 31 then
+      some (r == [Val.n (Impl.DeltaStrings.commonPrefixLength a b)]) else none
+  | "snappy_write_varint" =>
+    let p := vBytes (g "p")
+    let w := Impl.Snappy.writeVarint 4 (vN (g "value"))
+    if w.length ≤ p.length then some (r == [Val.n w.length, natsOf8 (w ++ p.drop w.length)]) else none
+  | "snappy_read32" | "lz4_read32" =>
+    let p := vBytes (g "p")
+    if 4 ≤ p.length then some (r == [Val.n (Impl.Lz4.read32 p.toArray 0)]) else none
+  -- bitunpack_wide / bitpack_wide: translated and self-checked, no link theorem yet (NOTES_cfunb.md); sampled comparison with
+  -- the model only
+  | "bitunpack_wide" =>
+    let input := vBytes (g "input")
+    let n := (vA (g "values")).length
+    let w := vN (g "bit_width")
+    if vN (g "count") == n && 1 ≤ w && w ≤ 64 && (n * w + 7) / 8 ≤ input.length then
+      some (r == [natsOf (Impl.Delta.unpackBits w n input)]) else none
+  | "bitpack_wide" =>
+    let vals := wordsOf 64 (g "values")
+    let w := vN (g "bit_width")
+    let out := vBytes (g "output")
+    if vN (g "count") == vals.length && 1 ≤ w && w ≤ 64 && out.length == (vals.length * w + 7) / 8 then
+      some (r == [Val.n out.length, natsOf8 (Impl.Delta.packBits w vals)]) else none
+  | "lz4_count" =>
+    let buf := vBytes (g "match_")
+    let p := vN (g "p")
+    let lim := vN (g "limit")
+    if p ≤ lim && lim ≤ buf.length && 7 ≤ lim then some (r == [Val.n (Impl.Lz4.count buf.toArray p 0 lim)]) else none
+  | "snappy_emit_literal" =>
+    let op := vBytes (g "op")
+    let lit := vBytes (g "literal")
+    let len := vN (g "len")
+    let hdr := Impl.Snappy.literalHeader len
+    if 0 < len && len ≤ lit.length && hdr.length + len ≤ op.length then
+      some (r == [Val.n (hdr.length + len), natsOf8 (hdr ++ lit.take len ++ op.drop (hdr.length + len))]) else none
+  | "snappy_emit_copy" =>
+    let op := vBytes (g "op")
+    let off := vN (g "offset")
+    let len := vN (g "len")
+    if 4 ≤ len && len < 2 ^ 20 then          -- the theorem covers len < 2^61; the model recurses len / 64 deep
+      let w := Impl.Snappy.copyBytes off len
+      if w.length ≤ op.length then some (r == [Val.n w.length, natsOf8 (w ++ op.drop w.length)]) else none
+    else none
+  | _ => none
+
+open Impl.Simd in
+/-- the hypotheses of the `…_defined` link theorem hold AND the theorem says `_defined = true` there -/
+def definedClaimB (f : String) (g : String → Val) : Bool :=
+  let len := fun (nm : String) => (vA (g nm)).length
+  match f with
+  | "scalar_prefix_sum_i32" | "scalar_prefix_sum_i64" => cntIs (g "count") (len "values")
+  | "scalar_gather_i32" | "scalar_gather_float" =>
+    cntIs (g "count") (len "indices") && len "output" == len "indices" &&
+      (scalarGather (memOf (wordsOf 32 (g "dict"))) (wordsOf 32 (g "indices"))).isSome
+  | "scalar_gather_i64" | "scalar_gather_double" =>
+    cntIs (g "count") (len "indices") && len "output" == len "indices" &&
+      (scalarGather (memOf (wordsOf 64 (g "dict"))) (wordsOf 32 (g "indices"))).isSome
+  | "scalar_byte_split_encode_float" =>
+    len "values" == 4 * vN (g "count") && len "output" == 4 * vN (g "count") && 4 * vN (g "count") + 8 < 2 ^ 63
+  | "scalar_byte_split_encode_double" =>
+    len "values" == 8 * vN (g "count") && len "output" == 8 * vN (g "count") && 8 * vN (g "count") + 8 < 2 ^ 63
+  | "scalar_byte_split_decode_float" =>
+    len "data" == 4 * vN (g "count") && len "values" == 4 * vN (g "count") && 4 * vN (g "count") + 8 < 2 ^ 63
+  | "scalar_byte_split_decode_double" =>
+    len "data" == 8 * vN (g "count") && len "values" == 8 * vN (g "count") && 8 * vN (g "count") + 8 < 2 ^ 63
+  | "scalar_unpack_bools" =>
+    cntIs (g "count") (len "output") && len "output" < 2 ^ 34 && len "output" ≤ 8 * len "input"
+  | "scalar_pack_bools" => cntIs (g "count") (len "input") && len "output" == (len "input" + 7) / 8
+  | "scalar_find_run_length_i32" => cntIs (g "count") (len "values")
+  | "scalar_crc32c" => vN (g "len") == len "data"
+  | "scalar_match_copy" => 0 < vN (g "dst") && vN (g "offset") == vN (g "dst") && vN (g "dst") + vN (g "len") ≤ len "src"
+  | "scalar_match_length" => vN (g "limit") == len "match_" && vN (g "p") ≤ len "match_"
+  | "scalar_count_non_nulls" | "scalar_fill_def_levels" => cntIs (g "count") (len "def_levels")
+  | "scalar_build_null_bitmap" => cntIs (g "count") (len "def_levels") && len "null_bitmap" == (len "def_levels" + 7) / 8
+  | "carquet_byte_stream_split_encode" =>
+    let n := vN (g "count")
+    let k := sInt 32 (vN (g "type_length"))
+    k ≤ 0 || (k < 2 ^ 30 && n < 2 ^ 63 && n * k.toNat < 2 ^ 63 && vN (g "output_capacity") < n * k.toNat) ||
+      (k < 2 ^ 30 && len "values" == n * k.toNat && len "output" == n * k.toNat && n * k.toNat + k.toNat + n < 2 ^ 63)
+  | "carquet_byte_stream_split_decode" =>
+    -- C08: any input whose true size is `data_size`
+    let n := vN (g "count")
+    let k := sInt 32 (vN (g "type_length"))
+    k ≤ 0 || (vN (g "data_size") == len "data" && k < 2 ^ 30 && len "values" == k.toNat * n && k.toNat * n + k.toNat + n < 2 ^ 63)
+  | "carquet_decode_plain_fixed_byte_array" =>
+    vN (g "input_size") == len "input" &&
+      (match Impl.Plain.decodeFlba (vBytes (g "input")) (sInt 64 (vN (g "count"))) (sInt 32 (vN (g "fixed_len"))) with
+       | .ok _ c => c ≤ len "output"
+       | .err => true
+       | .oob => false)
+  | "carquet_decode_plain_boolean" =>
+    vN (g "input_size") == len "input" && cntIs (g "count") (len "output") && len "output" < 2 ^ 62
+  | "dict_hash" => vN (g "size") == len "data"
+  | "write_uleb128" => (Impl.Delta.writeUleb128 (BitVec.ofNat 64 (vN (g "value")))).length ≤ len "data"
+  | "common_prefix_length" =>
+    vN (g "a_len") == len "a" && vN (g "b_len") == len "b" && len "a" < 2 ^ 31 && len "b" < 2 ^ 31
+  | "snappy_write_varint" => (Impl.Snappy.writeVarint 4 (vN (g "value"))).length ≤ len "p"
+  | "snappy_read32" | "lz4_read32" => 4 ≤ len "p"
+  | "lz4_count" => vN (g "p") ≤ vN (g "limit") && vN (g "limit") ≤ len "match_" && 7 ≤ vN (g "limit")
+  | "snappy_emit_literal" =>
+    let l := vN (g "len")
+    0 < l && l ≤ len "literal" && (Impl.Snappy.literalHeader l).length + l ≤ len "op"
+  | "snappy_emit_copy" =>
+    let l := vN (g "len")
+    4 ≤ l && l < 2 ^ 20 && (Impl.Snappy.copyBytes (vN (g "offset")) l).length ≤ len "op"
+  | _ => false
+/-! ### END cfunb -/
+
 def handle2 (l : Line) : Verdict :=
   match l.inStr "f", l.inNat "d" with
   | some f, some d =>
@@ -293,15 +562,19 @@ def handle2 (l : Line) : Verdict :=
             match allSome (e.outs.zipIdx.map (fun p => parseVal p.1.2 (l.outStr s!"r{p.2}"))) with
             | some r =>
               let kv := (e.args.map (·.1)).zip a
-              let link := match modelLink2 e.name (fun k => ((kv.find? (·.1 == k)).map (·.2)).getD (Val.n 0)) r with
+              let gk := fun k => ((kv.find? (·.1 == k)).map (·.2)).getD (Val.n 0)
+              let link := match modelLink2 e.name gk r with
                 | some b => [("model_link_" ++ e.name, b)]
-                | none => []
+                | none => match modelLinkB e.name gk r with          -- cfunb
+                  | some b => [("model_link_" ++ e.name, b)]
+                  | none => []
               verdict ([("defined_flag", df), ("cfun_value", v == r),
                         ("no_ubsan_report_when_defined", (l.outNat "ub").getD 0 == 0)]) link
             | none => .bad "cfun2: d=1 but results missing"
           else
             let kv := (e.args.map (·.1)).zip a
-            let claim := definedClaim e.name (fun k => ((kv.find? (·.1 == k)).map (·.2)).getD (Val.n 0))
+            let gk := fun k => ((kv.find? (·.1 == k)).map (·.2)).getD (Val.n 0)
+            let claim := definedClaim e.name gk || definedClaimB e.name gk          -- cfunb
             verdict [("defined_flag", !df)] (if claim then [("model_link_defined_" ++ e.name, false)] else [])
   | _, _ => .bad "cfun2 args"
 
